@@ -57,7 +57,8 @@ def build(rec):
     # coefficients created in a fixed order (their count() order = original order in the form)
     cs = [ufl.Coefficient(V["P2"]), ufl.Coefficient(V["P1"]), ufl.Coefficient(V["DG0"]), ufl.Coefficient(V["vP1"])]
     k0, k1, k2 = ufl.Constant(mesh), ufl.Constant(mesh, shape=(gdim,)), ufl.Constant(mesh, shape=(gdim, gdim))
-    consts = [k0, k1, k2]
+    k3 = ufl.Constant(mesh, shape=(gdim + 1, gdim))  # non-square: flattened row-major, its last entry is c[offset + (gdim+1)*gdim - 1]
+    consts = [k0, k1, k2, k3]
     arity = rec.get("arity", 1)
     tspace = V["P1"] if "dP" in rec.get("measures", []) else V["DG1"]
     v = ufl.TestFunction(tspace)
@@ -69,7 +70,7 @@ def build(rec):
         return ufl.inner(c, c) if i == 3 else c
 
     def cscal(j):
-        return [k0, ufl.inner(k1, k1), ufl.inner(k2, ufl.Identity(gdim)) + k2[0, gdim - 1]][j]
+        return [k0, ufl.inner(k1, k1), ufl.inner(k2, ufl.Identity(gdim)) + k2[0, gdim - 1], k3[gdim, 0] + k3[1, gdim - 1] * k3[gdim, gdim - 1]][j]
 
     kind = rec.get("kind", "patterns")
     if kind == "patterns":
@@ -144,7 +145,7 @@ def enumerate_recipes(thorough):
         for ar in (0, 2):
             for p, q in [([0], [1]), ([1], [0, 2]), ([2], [2]), ([0, 1, 2], [1])]:
                 out.append(dict(cell=cell, measures=["dx1", "dS"], patterns=[p, q], arity=ar))
-        for cu in itertools.product([[], [0], [1], [2], [0, 2], [2, 1]], repeat=2):
+        for cu in itertools.product([[], [0], [1], [2], [0, 2], [2, 1], [3], [3, 1]], repeat=2):
             out.append(dict(cell=cell, measures=["dx", "ds1"], patterns=[[1], [0]], arity=1, consts=[list(cu[0]), list(cu[1])]))
         for kind in ("derivative", "derivative2", "cancel", "zero-factor", "consts-only-last", "deriv-const-first", "deriv-const-middle", "cancel-const", "zero-const"):
             out.append(dict(cell=cell, kind=kind))
